@@ -1080,7 +1080,11 @@ class Literal(Variable[T]):
         original_data = data
         data = [data]
         if not type_:
-            original_data_lst = make_list(original_data)
+            if is_iterable(original_data) and not hasattr(original_data, "__len__"):
+                # a one-shot iterator must not be consumed to infer the type of its items
+                original_data_lst = []
+            else:
+                original_data_lst = make_list(original_data)
             first_value = original_data_lst[0] if len(original_data_lst) > 0 else None
             type_ = type(first_value) if first_value else None
         if name is None:
